@@ -12,7 +12,7 @@ func init() {
 		ID:         "C25",
 		Level:      "other",
 		Technique:  "finite case analysis of the text string scanners' switch conditions (every byte class, every rune bit-length class, both ASCII modes) + writer/reader escape-table agreement + recursion guard on unknown-field printing (static)",
-		Explain:    "Decides structural necessary conditions of lossless text string literals: (1) encoder: every control character, the quote, the backslash, DEL and every byte of an invalid UTF-8 sequence selects an escaping clause, whose escape is a letter the decoder maps back to that character or \\x followed by exactly two hex digits; non-ASCII runes are escaped as \\u with exactly four or \\U with exactly eight hex digits whenever ASCII output is requested (and always for U+0080..U+009F), so ASCII mode emits no byte >= 0x80; (2) decoder: NUL, newline and invalid UTF-8 inside a literal are rejected, the escape switch accepts exactly the letters of the text format with their C values, octal/hex/Unicode escapes go through strconv with the right base and width, a high surrogate must be followed by a \\u escape, any other letter is an error; (3) every escape the encoder can emit is accepted by the decoder with the same value; (4) printing unknown fields recurses only through ConsumeGroup payloads (bounded).",
+		Explain:    "Decides structural necessary conditions of lossless text string literals: (1) encoder: every control character, the quote, the backslash, DEL and every byte of an invalid UTF-8 sequence selects an escaping clause, whose escape is a letter the decoder maps back to that character or \\x followed by exactly two hex digits; non-ASCII runes are escaped as \\u with exactly four or \\U with exactly eight hex digits whenever ASCII output is requested (and always for U+0080..U+009F), so ASCII mode emits no byte >= 0x80; (2) decoder: NUL, newline and invalid UTF-8 inside a literal are rejected, the escape switch accepts exactly the letters of the text format with their C values, octal/hex/Unicode escapes go through strconv with the right base and width, a high surrogate must be followed by a \\u escape, any other letter is an error; (3) every escape the encoder can emit is accepted by the decoder with the same value; (4) printing unknown fields recurses only through ConsumeGroup payloads (bounded). Also: the UTF-8 validity test of the text decoder is confined to StringKind clauses (bytes are exempt), and parseString's output buffer is cut from the input with a three-index slice, so unescaping never writes into the caller's buffer.",
 		NotCovered: "byte-for-byte round trip on concrete values; concatenation of adjacent literals; single-quote handling; numeric parsing inside strconv.",
 		Quick:      all("./internal/encoding/text", "./encoding/prototext"),
 		Thorough:   all("./..."),
